@@ -7,7 +7,7 @@ import traceback
 
 VERIF = os.path.dirname(os.path.dirname(os.path.abspath(__file__)))
 GEN = os.path.join(VERIF, 'coq', 'gen')
-MODULES = ['cache', 'dispatch', 'smat']
+MODULES = ['cache', 'dispatch', 'smat', 'alias']
 
 
 def write_if_changed(name, text):
